@@ -83,6 +83,10 @@ def gen_like(rng, t, old, fit=True):
         return G.scalar_value(rng, t["name"])
     if k == "string":
         cap = old["size"] - 9
+        # the boundary: the longest text that still leaves room for the terminating NUL / the shortest that does not
+        if rng.random() < 0.3 and cap + (0 if fit else 1) >= 0:
+            n = cap if fit else cap + 1
+            return {"s": [rng.randrange(97, 123) for _ in range(n)], "size": old["size"]}
         pool = [s for s in G.STRINGS if len(s.encode()) <= cap] if fit else [s for s in G.STRINGS if len(s.encode()) > cap]
         if not pool:
             pool = ["x" * (cap + 1 + rng.randint(0, 20))] if not fit else [""]
@@ -96,6 +100,28 @@ def gen_like(rng, t, old, fit=True):
 
 def has_string(t):
     return G.has_kind(t, "string")
+
+
+def wrong_tail(et, v):
+    """v (of compound type et, at least two parts) with its last part replaced by a value of the wrong kind"""
+    def wrong(t):
+        if t["k"] == "scalar": return {"wrong": "dict"}
+        if t["k"] == "struct" and not t["fields"]: return None      # nothing to refuse
+        return {"wrong": "obj"}        # (None for a nested struct / array means "default / leave as it is")
+    if et["k"] == "struct" and len(et["fields"]) >= 2 and wrong(et["fields"][-1][1]):
+        return {"f": list(v["f"][:-1]) + [wrong(et["fields"][-1][1])]}
+    if et["k"] == "array" and len(v["items"]) >= 2 and wrong(et["item"]):
+        return {"shape": list(v["shape"]), "items": list(v["items"][:-1]) + [wrong(et["item"])]}
+    return None
+
+
+def shortest(t, v):
+    """v with every text replaced by the empty one (an object built from it takes the least space its shape allows)"""
+    k = t["k"]
+    if k == "string": return {"s": [], "size": 16}
+    if k == "struct": return {"f": [shortest(ft, fv) for (_, ft), fv in zip(t["fields"], v["f"])]}
+    if k == "array": return {"shape": list(v["shape"]), "items": [shortest(t["item"], x) for x in v["items"]]}
+    return v
 
 
 def gen_case(rng, depth, nops):
@@ -126,9 +152,13 @@ def gen_case(rng, depth, nops):
                 # another xobject as the new value: of the same class, or (N-D arrays) of the array class
                 # with the same items and shape but another axis order
                 form = "xobj_oo" if (et["k"] == "array" and len(et["shape"]) > 1 and rng.random() < 0.6) else "xobj"
+                if form == "xobj" and et["k"] == "struct" and not G.is_static(et) and rng.random() < 0.5:
+                    new = shortest(et, new)      # an object of the same class that is strictly SMALLER than the element
                 # an object carries its own string capacities; keep the history unambiguous: use it only when
                 # they coincide with the capacities fixed at creation (else the value goes in as plain data)
-                if retag(et, old, new) is None or source_caps(et, new) != retag(et, old, new):
+                # (when the object's image has another length than the element, only the field-wise reading exists)
+                rt = retag(et, old, new)
+                if rt is None or not unambiguous(et, rt, source_caps(et, new)):
                     form = "py"
             exp = retag(et, old, new)
             op = {"mode": "set", "path": [list(s) for s in p], "new": new, "via": via, "form": form, "expect": exp is not None}
@@ -141,6 +171,13 @@ def gen_case(rng, depth, nops):
                              "misuse": "too-large"})
             if retag(et, old, new) is not None:
                 cur = vset(cur, p, retag(et, old, new))
+        elif r < 0.84 and wrong_tail(et, old) is not None:
+            # misuse: a whole struct / array whose LAST part (in assignment order) is of the wrong kind (a dict or None
+            # where a number is expected, None where a nested struct / array is expected): the parts before it fit and
+            # differ from the stored ones, so a refusal that does not restore them shows
+            new = wrong_tail(et, gen_like(rng, et, old, fit=True))
+            c["ops"].append({"mode": "set", "path": [list(s) for s in p], "new": new, "via": via, "expect": None,
+                             "misuse": "later-part-of-wrong-kind"})
         elif r < 0.90 and et["k"] == "array" and len(old["items"]) >= 1:   # misfit: update with another length / shape
             sh = list(old["shape"]); ax = rng.randrange(len(sh)); sh[ax] += rng.choice([1, 2]) if sh[ax] < 2 or rng.random() < 0.5 else -1
             if len(sh) > 1 and rng.random() < 0.5:
@@ -212,6 +249,22 @@ def source_caps(t, v):
     if k == "array":
         return {"shape": list(v["shape"]), "items": [source_caps(t["item"], x) for x in v["items"]]}
     return v
+
+
+def unambiguous(t, rt, sc):
+    """an object-valued new value sc (capacities of the source) for an element that must end as rt (capacities as
+    created): wherever a nested struct / array of the source has exactly the size of its destination the library may
+    copy it as it is, so there the two must coincide; where sizes differ only the field-wise reading exists"""
+    k = t["k"]
+    if k in ("scalar", "string"):
+        return True
+    if L.image_size({"type": t, "value": sc}) == L.image_size({"type": t, "value": rt}):
+        return sc == rt
+    if k == "struct":
+        return all(unambiguous(ft, a, b) for (_, ft), a, b in zip(t["fields"], rt["f"], sc["f"]))
+    if k == "array":
+        return all(unambiguous(t["item"], a, b) for a, b in zip(rt["items"], sc["items"]))
+    return True
 
 
 def case_term(c, r):
@@ -303,6 +356,51 @@ def judge_case(pid, c, r, coq_fail):
     return out
 
 
+# ------------------------------------------------------------------ C05 over assignment histories
+def c05_histories(ctx, n, depth, nops, shards, pid="C05"):
+    """C05 after assignments: whatever sequence of assignments (fitting, boundary, misfitting) the implementation
+    ACCEPTED, the object's bytes must still be accepted by the strict decoder of the documented format with the size
+    fixed at creation (strings NUL terminated inside their capacity, tables in order, ...).  No expected value is
+    involved.  Returns ([(sig, what, replay)], coverage)."""
+    rng = random.Random(ctx.seed + (505 if pid == "C05" else 3535))
+    cases = [gen_case(rng, depth, nops) for _ in range(n)]
+    sh = (len(cases) + shards - 1) // shards
+    results = []
+    for r in run_impl_parallel(ctx, "update", [{"cases": cases[i:i + sh]} for i in range(0, len(cases), sh)]):
+        results += r["results"]
+    terms = []; where = []
+    for i, (c, r) in enumerate(zip(cases, results)):
+        if "steps" not in r: continue
+        for k, (op, st) in enumerate(zip(c["ops"], r["steps"])):
+            if op["mode"] == "set" and st.get("ok") and "bytes" in st:
+                terms.append("mkDC (%s) %s %s" % (G.ty_term(c["type"]), zlist(st["bytes"]), zlit(r["size"])))
+                where.append((i, k))
+    SH = 120
+    files = []
+    for j in range(0, len(terms), SH):
+        body = "From Coq Require Import ZArith List.\nImport ListNotations.\nFrom XO Require Import Types Format Check AllocSpec.\nOpen Scope Z_scope.\n"
+        body += "Definition cs : list dcase := [\n  " + ";\n  ".join(terms[j:j + SH]) + "\n].\n"
+        body += 'Goal True. idtac "@@c05upd". exact I. Qed.\nEval vm_compute in (failing decodes_ok 0%nat cs).\n'
+        files.append(("cases_%su_%d" % (pid, j // SH), body))
+    res = coq_eval_many(ctx, files)
+    out = []; bysig = {}
+    for j in range(0, len(terms), SH):
+        rc, o = res["cases_%su_%d" % (pid, j // SH)]
+        pairs = parse_pairs(o) if rc == 0 else None
+        if pairs is None:
+            out.append(("%s/after-assignment/cases-do-not-evaluate" % pid, "cases file does not evaluate", dict(kind="broken-tie", log=o[-1200:]))); continue
+        for a, code in pairs:
+            i, k = where[j + a]
+            op = cases[i]["ops"][k]
+            sig = "%s/after-assignment/%s/code%d/%s" % (pid, "bytes-no-longer-in-the-documented-format" if pid == "C05" else "sizes-of-nested-parts-no-longer-their-extents", code, op.get("misuse", "fitting"))
+            if sig not in bysig or k < bysig[sig][1]: bysig[sig] = (i, k)
+    for sig, (i, k) in sorted(bysig.items()):
+        c = dict(cases[i]); c["ops"] = c["ops"][:k + 1]
+        out.append((sig, "after an assignment the implementation accepted, the strict decoder of the documented format rejects the object's bytes",
+                    dict(kind="concrete", tie="K-UPDATE", mode="c05", case=c, failing_step=k, how_to_replay="./check C10 --replay <this file> (same history runner)")))
+    return out, dict(assignment_histories=len(cases), accepted_assignments_judged_in_coq=len(terms))
+
+
 def run(ctx):
     pid = ctx.pid
     bud = BUDGET[ctx.tier]
@@ -349,7 +447,16 @@ def run(ctx):
                 sig = "%s/step-rejected-by-the-model" % pid
                 if sig not in bysig:
                     bysig[sig] = (i, "Update.updates_ok rejects step %d" % k, k)
+    refcov = {}
+    extra = []
+    if pid == "C10":
+        import c_refs
+        rb = c_refs.BUDGET[ctx.tier]
+        extra, refcov = c_refs.c10_histories(ctx, max(60, rb["n"] // 2), rb["nops"], rb["shards"])
     found = False
+    for sig, what, rep in extra:
+        found = True
+        report(ctx, sig, what, rep)
     for sig, (i, what, k) in sorted(bysig.items()):
         found = True
         c = dict(cases[i]); c["ops"] = c["ops"][:k + 1] if k >= 0 else c["ops"]
@@ -363,8 +470,230 @@ def run(ctx):
     cov = dict(evaluations=nsteps, distinct_nontrivial=len(distinct), histories=len(cases), judged_in_coq=len(idx),
                rule="generated reference-free objects (as C01) then histories of %d operations through the constructor handle or fresh views: fitting assignments of leaves (scalars, strings within capacity) and of whole nested structs/arrays of equal shape (plain data or numpy), buffer growth in between, and misuse (string / nested item too large, array update of other length or shape, index outside the shape incl. negative, buffer of another context, offset without buffer). After every step: full re-read through handle and view, whole-buffer diff, bytes judged in Coq against the image of the model's updated value tree. distinct = distinct (type, op list)" % bud["nops"],
                samples=[{"type": cases[-1]["type"], "ops": cases[-1]["ops"][:4]}], distribution=dict(sorted(hist.items())), corpus_cases=len(corpus))
+    cov.update(refcov)
     return finish(ctx, "proof", obl, cov,
                   ["reference-free fragment (references: C08)", "fits = same shape and every string within the capacity fixed at creation (model: Update.assign)"])
+
+
+# ------------------------------------------------------------------ C03 over assignment histories
+def parts_inside_and_disjoint(parts, off, size):
+    """parts: [path, offset, size] of nested compound parts: each inside its parent, siblings disjoint"""
+    ext = {(): (off, size)}
+    for p, o, s in parts: ext[tuple(map(tuple, p))] = (o, s)
+    kids = collections.defaultdict(list)
+    for p, (o, s) in ext.items():
+        if not p: continue
+        po, ps = ext[p[:-1]]
+        if not (po <= o and o + s <= po + ps):
+            return ("nested-part-outside-its-parent", "part %s at [%d,%d) parent at [%d,%d)" % (list(p), o, o + s, po, po + ps))
+        kids[p[:-1]].append((o, s, p))
+    for par, ks in kids.items():
+        ks.sort()
+        for (o1, s1, p1), (o2, s2, p2) in zip(ks, ks[1:]):
+            if o1 + s1 > o2 and s1 > 0 and s2 > 0:
+                return ("sibling-parts-overlap", "parts %s [%d,%d) and %s [%d,%d)" % (list(p1), o1, o1 + s1, list(p2), o2, o2 + s2))
+    return None
+
+
+def c03_update_histories(ctx, n, depth, nops, shards):
+    """C03 after assignments on reference-free objects of generated types (values given as plain data, numpy or other
+    objects): whatever the implementation ACCEPTED changed no byte outside the object and left the size it reports
+    equal to the extent reserved at creation.  Returns ([(sig, what, replay)], coverage)."""
+    rng = random.Random(ctx.seed + 3030)
+    cases = [gen_case(rng, depth, nops) for _ in range(n)]
+    for c in cases: c["report_parts"] = True
+    sh = (len(cases) + shards - 1) // shards
+    results = []
+    for r in run_impl_parallel(ctx, "update", [{"cases": cases[i:i + sh]} for i in range(0, len(cases), sh)]):
+        results += r["results"]
+    bysig = {}; nst = 0; nparts = 0
+    for i, (c, r) in enumerate(zip(cases, results)):
+        if "steps" not in r: continue
+        p0 = r.get("parts0")
+        if p0:
+            nparts += len(p0)
+            bad = parts_inside_and_disjoint(p0, r["off"], r["size"])
+            if bad: bysig.setdefault("C03/construction/" + bad[0], (i, bad[1], -1))
+        for k, (op, st) in enumerate(zip(c["ops"], r["steps"])):
+            if op["mode"] != "set": continue
+            nst += 1
+            kind = ("accepted" if st.get("ok") else "refused") + "/" + op.get("form", "py")
+            sig = None
+            if st.get("outside_changed"):
+                sig = ("C03/assignment/bytes-outside-the-object-changed/" + kind, "bytes %s outside the object changed" % st["outside_changed"])
+            elif st.get("size_now") != r["size"]:
+                sig = ("C03/assignment/reported-size-no-longer-the-extent/" + kind, "size reported %s, extent reserved %s" % (st.get("size_now"), r["size"]))
+            elif p0 is not None and "parts" in st and st["parts"] != p0:
+                # the model (C03_assignment_keeps_extent): the extent of every nested part is fixed at creation
+                d = [(a, b2) for a, b2 in zip(p0, st["parts"]) if a != b2][:1]
+                sig = ("C03/assignment/nested-part-no-longer-reports-its-extent/" + kind, "nested part (path, offset, size): at creation %s, now %s" % (d[0] if d else (len(p0), len(st["parts"]))))
+            elif p0 is not None and "parts_exc" in st:
+                sig = ("C03/assignment/nested-parts-unreadable/" + kind, st["parts_exc"])
+            if sig:
+                if sig[0] not in bysig or k < bysig[sig[0]][2]: bysig[sig[0]] = (i, sig[1], k)
+                break
+            if st.get("ok") is False and st.get("bytes") != (r["steps"][k - 1]["bytes"] if k else r["bytes0"]):
+                break
+    out = []
+    for sig, (i, what, k) in sorted(bysig.items()):
+        c = dict(cases[i]); c["ops"] = c["ops"][:k + 1]
+        out.append((sig, what, dict(kind="concrete", tie="K-SET", mode="c03", case=c, failing_step=k, how_to_replay="./check C10 --replay <this file> (same history runner)")))
+    # every nested part still reports the extent its parent reserves for it and the parts still tile the parent: the
+    # strict decoder (certified: Check.decodes_ok) demands exactly that of every size word and offset table
+    o2, cov2 = c05_histories(ctx, n, depth, nops, shards, pid="C03")
+    return out + o2, dict(assignment_histories=len(cases) + cov2["assignment_histories"], assignments_in_them=nst, nested_parts_tracked=nparts,
+                          accepted_assignments_decoded_in_coq=cov2["accepted_assignments_judged_in_coq"])
+
+
+# ------------------------------------------------------------------ C09 over copies of nested parts
+def nocap(v):
+    if isinstance(v, dict):
+        if "cap" in v: return {"s": [], "size": 16}
+        return {k: nocap(x) for k, x in v.items()}
+    if isinstance(v, list): return [nocap(x) for x in v]
+    return v
+
+
+def permute(t, v):
+    """a value of the same type and the same TOTAL size whose variable-size parts sit elsewhere: items of every array
+    in reverse order, the texts of the string fields of every struct rotated"""
+    k = t["k"]
+    if k == "struct":
+        fs = [permute(ft, fv) for (_, ft), fv in zip(t["fields"], v["f"])]
+        si = [i for i, (_, ft) in enumerate(t["fields"]) if ft["k"] == "string"]
+        if len(si) >= 2:
+            vals = [fs[i] for i in si]; vals = vals[1:] + vals[:1]
+            for i, x in zip(si, vals): fs[i] = x
+        return {"f": fs}
+    if k == "array":
+        return {"shape": list(v["shape"]), "items": [permute(t["item"], x) for x in reversed(v["items"])]}
+    return v
+
+
+def part_copy_case(rng, depth):
+    S = {"k": "string"}
+    def arr(item, shape, order=None): return {"k": "array", "item": item, "shape": shape, "order": order or list(range(len(shape)))}
+    F64 = {"k": "scalar", "name": "Float64"}
+    directed = [arr(S, [None]), arr(S, [3]), arr(arr(F64, [None]), [None]), arr(S, [2, None], [1, 0]),
+                {"k": "struct", "name": "Rn", "fields": [["names", arr(S, [None])], ["x", F64]]},
+                {"k": "struct", "name": "Rab", "fields": [["a", S], ["w", F64], ["b", S]]}]
+    while True:
+        if rng.random() < 0.5:
+            PT = rng.choice(directed)
+        else:
+            PT = G.gen_type(rng, rng.randint(1, depth))
+        if PT["k"] in ("struct", "array") and not G.is_static(PT):
+            break
+    M = {"k": "struct", "name": "M" + hashlib.sha1(json.dumps(PT, sort_keys=True).encode()).hexdigest()[:8],
+         "fields": [["k", {"k": "scalar", "name": "Int32"}], ["part", PT], ["z", F64]]}
+    H = {"k": "struct", "name": "H" + M["name"][1:], "fields": [["pre", {"k": "scalar", "name": "Int64"}], ["mid", M], ["post", S]]}
+    for _ in range(20):
+        v = nocap(G.gen_value(rng, H))
+        # make re-distribution likely: strings of clearly different lengths
+        if json.dumps(permute(H, v)) != json.dumps(v): break
+    paths = [(p, pt) for p, pt in all_paths(H, v) if pt["k"] in ("struct", "array") and len(p) >= 2]
+    pp = [(p, pt) for p, pt in paths if not G.is_static(pt)] or paths
+    p, pt = rng.choice(pp)
+    q = p[:rng.randint(1, len(p))]
+    qt = sub_ty(H, q)
+    base = L.gen_case(rng, 1)
+    prep = dict(base["prep"])
+    c = {"type": H, "value": v, "prep": prep, "p": [list(x) for x in p], "q": [list(x) for x in q], "newq": permute(qt, vget(v, q)),
+         "where": rng.choice(["same", "other", "ctx"])}
+    part0 = vget(v, p)
+    lp = [(x, xt) for x, xt in all_paths(pt, part0) if xt["k"] in ("scalar", "string")]
+    if lp:
+        x, xt = rng.choice(lp)
+        c["cp_write"] = {"path": [list(y) for y in x], "type": xt, "new": gen_like(rng, xt, vget(part0, x), fit=True)}
+    v1 = vset(v, q, c["newq"])
+    lh = [(x, xt) for x, xt in all_paths(H, v1) if xt["k"] in ("scalar", "string") and x[:len(p)] == p] or \
+         [(x, xt) for x, xt in all_paths(H, v1) if xt["k"] in ("scalar", "string")]
+    x, xt = rng.choice(lh)
+    c["h_write"] = {"path": [list(y) for y in x], "type": xt, "new": gen_like(rng, xt, vget(v1, x), fit=True)}
+    return c
+
+
+def judge_part_copy(c, r):
+    """[(sig, what)]"""
+    w = c["where"]
+    if r.get("stage") == "harness":
+        return [("C09/part-copy/harness-problem", r.get("msg", "") + r.get("tb", "")[-300:])]
+    if r.get("stage") == "construct":
+        return []
+    if r.get("stage") == "copy":
+        return [("C09/part-copy/copy-construction-raises-%s/%s" % (r["exc"], w), r["msg"])]
+    H = c["type"]; v0 = c["value"]; p = [tuple(x) for x in c["p"]]; q = [tuple(x) for x in c["q"]]
+    pt = sub_ty(H, p)
+    S = G.strip_sizes
+    part0 = vget(v0, p)
+    out = []
+    def same(obs, exp): return "v" in obs and S(obs["v"]) == S(exp)
+    so, ss = r["src_extent"]; co, cs = r["cp_extent"]
+    if r["same_buffer"] and not (co + cs <= so or so + ss <= co):
+        out.append(("C09/part-copy/storage-overlaps-the-original/" + w, "copy at [%d,%d) original part at [%d,%d)" % (co, co + cs, so, so + ss)))
+    if co < 0 or co + cs > r["cp_capacity"]:
+        out.append(("C09/part-copy/copy-outside-its-buffer/" + w, "copy at [%d,%d) capacity %d" % (co, co + cs, r["cp_capacity"])))
+    if not same(r["cp_0"], part0) or not same(r["cpview_0"], part0):
+        out.append(("C09/part-copy/not-equal-to-the-original/" + w, "the copy does not read as the part it was built from"))
+        return out
+    if r["relayout"] != "ok" or not same(r["h_1"], vset(v0, q, c["newq"])):
+        # whether this assignment is honoured is C10 / C11's business: nothing further can be said about this case,
+        # except that the copy must not have changed
+        if not same(r["cp_1"], part0) or not same(r["cpview_1"], part0):
+            out.append(("C09/part-copy/changed-by-a-later-assignment-to-the-original/" + w, "copy differs after the original's ancestor was assigned"))
+        return out
+    v1 = vset(v0, q, c["newq"])
+    if not same(r["cp_1"], part0):
+        out.append(("C09/part-copy/kept-handle-changed-by-relayout-of-the-original/" + w, "after an ancestor of the copied part was replaced by an object of the same size laid out differently, the copy (kept handle) reads %s" % json.dumps(r["cp_1"])[:200]))
+    if not same(r["cpview_1"], part0):
+        out.append(("C09/part-copy/bytes-changed-by-relayout-of-the-original/" + w, "fresh view of the copy differs after the original was re-laid-out"))
+    if out: return out
+    cpv = part0
+    if "cp_write" in c:
+        if r.get("cp_write") != "ok":
+            return out
+        x = [tuple(y) for y in c["cp_write"]["path"]]
+        nv = retag(c["cp_write"]["type"], vget(part0, x), c["cp_write"]["new"])
+        if nv is None: return out
+        cpv = vset(part0, x, nv)
+        if not same(r["h_2"], v1):
+            out.append(("C09/part-copy/write-to-the-copy-shows-in-the-original/" + w, "original changed by a write to the copy"))
+        if not same(r["cp_2"], cpv) or not same(r["cpview_2"], cpv):
+            out.append(("C09/part-copy/write-to-the-copy-not-read-back/" + w, "copy does not read as updated"))
+        if out: return out
+    if "h_write" in c and r.get("h_write") == "ok":
+        if not same(r["cp_3"], cpv) or not same(r["cpview_3"], cpv):
+            out.append(("C09/part-copy/write-to-the-original-shows-in-the-copy/" + w, "copy changed by a write to the original"))
+    return out
+
+
+def c09_part_copies(ctx, n, depth, shards):
+    rng = random.Random(ctx.seed + 909)
+    cases = [part_copy_case(rng, depth) for _ in range(n)]
+    sh = (len(cases) + shards - 1) // shards
+    results = []
+    for r in run_impl_parallel(ctx, "partcopy", [{"cases": cases[i:i + sh]} for i in range(0, len(cases), sh)]):
+        results += r["results"]
+    bysig = {}; hist = collections.Counter()
+    for c, r in zip(cases, results):
+        hist["where:" + c["where"]] += 1
+        hist["relayout:" + str(r.get("relayout", r.get("stage")))] += 1
+        if r.get("relayout") == "ok": hist["relayout-binary(same size):" + str(r.get("relayout_same_size"))] += 1
+        hist["copied-part:" + sub_ty(c["type"], [tuple(x) for x in c["p"]])["k"]] += 1
+        for sig, what in judge_part_copy(c, r):
+            if sig not in bysig or len(json.dumps(c)) < len(json.dumps(bysig[sig][0])):
+                bysig[sig] = (c, what, r)
+    out = [(sig, what, dict(kind="concrete", tie="K-PARTCOPY", case=c, observed={k: v for k, v in r.items() if not k.startswith(("h_", "cp_", "cpview_")) or k in ("cp_1", "cp_write", "h_write")},
+                            how_to_replay="./check C09 --replay <this file>")) for sig, (c, what, r) in sorted(bysig.items())]
+    return out, dict(part_copies=len(cases), part_copy_distribution=dict(sorted(hist.items())))
+
+
+def part_copy_replay(ctx, r):
+    res = run_impl(ctx, "partcopy", {"cases": [r["case"]]})["results"][0]
+    js = judge_part_copy(r["case"], res)
+    for sig, what in js: print(sig, "--", what)
+    print("REPRODUCED" if js else "not reproduced")
+    return 1 if js else 0
 
 
 def replay(ctx, path):
